@@ -142,6 +142,9 @@ func genLine(r *rand.Rand) Line {
 	case k < 7:
 		n = "Impersonate-User"
 		v = pick(r, namePool, []string{"", "", " "}, 15)
+		if r.Intn(4) == 0 {
+			v = rig.Pick(r, []string{"system:serviceaccount:ns1:sa1", "system:serviceaccount:kube-system:a.b-c", "system:serviceaccount:team-a:builder"})
+		}
 	case k < 10:
 		n = "Impersonate-Group"
 		v = pick(r, groupPool, []string{"", " "}, 10)
@@ -246,21 +249,74 @@ func genCase(c *rig.Ctx, i int) Case {
 		r.Shuffle(len(cs.Client), func(a, b int) { cs.Client[a], cs.Client[b] = cs.Client[b], cs.Client[a] })
 	}
 	cs.Upgrade = r.Intn(6) == 0
-	// authorizer script: refuse one or two of the requests the case derives
-	if r.Intn(5) < 2 {
-		var m modelOut
-		if err := c.Model("C02.run", cs, &m); err == nil && len(m.Calls) > 0 {
-			for k, n := 0, 1+r.Intn(2); k < n; k++ {
-				d := rig.Pick(r, m.Calls)
-				d.D = rig.Pick(r, []string{"deny", "deny", "noopinion", "error"})
+	// the cluster's policy, keyed by the full attributes of a record (incl. the namespace), built around the records the
+	// specification requires for this request
+	var m modelOut
+	var req []Deny
+	if err := c.Model("C02.run", cs, &m); err == nil {
+		req = m.Required
+	}
+	saNs := rig.Hex("ns1")
+	for _, d := range req {
+		if rig.UnHex(d.Res) == "serviceaccounts" {
+			saNs = d.Ns
+		}
+	}
+	refusal := func() string { return rig.Pick(r, []string{"deny", "deny", "noopinion", "error"}) }
+	shift := func(d Deny) Deny { // the same record in another namespace
+		if rig.UnHex(d.Res) == "serviceaccounts" {
+			d.Ns = rig.Hex(rig.Pick(r, []string{"", "other", "kube-system"}))
+		} else {
+			d.Ns = saNs
+			if r.Intn(4) == 0 {
+				d.Ns = rig.Hex(rig.Pick(r, []string{"other", "default"}))
+			}
+		}
+		return d
+	}
+	switch k := r.Intn(12); {
+	case len(req) == 0 || k < 4: // everything allowed (or nothing to ask)
+		if r.Intn(8) == 0 { // a refusal that may or may not concern the request
+			cs.Deny = append(cs.Deny, Deny{Grp: rig.Hex(""), Res: rig.Hex(rig.Pick(r, []string{"users", "groups", "serviceaccounts"})),
+				Sub: rig.Hex(""), Ns: rig.Hex(rig.Pick(r, []string{"", "ns1"})),
+				Name: rig.Hex(rig.Pick(r, []string{"bob", "dev", "v", "sa1", "alice"})), D: "deny"})
+		}
+	case k < 6: // allow by default, refuse one or two required records
+		for i, n := 0, 1+r.Intn(2); i < n; i++ {
+			d := rig.Pick(r, req)
+			d.D = refusal()
+			cs.Deny = append(cs.Deny, d)
+		}
+	case k < 7: // deny by default, allow exactly the required records
+		cs.Default = refusal()
+		for _, d := range req {
+			d.D = "allow"
+			cs.Deny = append(cs.Deny, d)
+		}
+	case k < 8: // deny by default, one required record is not allowed
+		cs.Default = refusal()
+		miss := r.Intn(len(req))
+		for i, d := range req {
+			if i != miss {
+				d.D = "allow"
 				cs.Deny = append(cs.Deny, d)
 			}
 		}
-	} else if r.Intn(10) == 0 {
-		// a refusal that may or may not concern the request
-		cs.Deny = append(cs.Deny, Deny{Res: rig.Pick(r, []string{"users", "groups", "userextras", "serviceaccounts"}),
-			Sub: rig.Hex(rig.Pick(r, []string{"", "scopes", "a"})), Ns: rig.Hex(rig.Pick(r, []string{"", "ns1"})),
-			Name: rig.Hex(rig.Pick(r, []string{"bob", "dev", "v", "sa1", "alice"})), D: "deny"})
+	case k < 11: // deny by default, like namespaced RoleBindings: some records are allowed only in ANOTHER namespace
+		// (groups / extras / users only inside the service account's namespace, the service account only elsewhere)
+		cs.Default = refusal()
+		shifted := r.Intn(len(req))
+		for i, d := range req {
+			if i == shifted || r.Intn(3) == 0 {
+				d = shift(d)
+			}
+			d.D = "allow"
+			cs.Deny = append(cs.Deny, d)
+		}
+	default: // allow by default, a refusal that names a required record in another namespace: does not concern the request
+		d := shift(rig.Pick(r, req))
+		d.D = refusal()
+		cs.Deny = append(cs.Deny, d)
 	}
 	return cs
 }
